@@ -70,6 +70,20 @@ var prods = []prod{
 	{"is_null_of_paren", E, E, "(", ") IS NULL", ""},
 	{"extract", E, E, "EXTRACT(YEAR FROM ", ")", ""},
 	{"interval_free_tuple", E, E, "(1, ", ")", ""},
+	{"window_frame_offset", E, E, "sum(1) OVER (ORDER BY a ROWS ", " PRECEDING)", ""},
+	{"window_frame_between", E, E, "sum(1) OVER (ORDER BY a ROWS BETWEEN ", " PRECEDING AND CURRENT ROW)", ""},
+	{"aggregate_order_by", E, E, "array_agg(a ORDER BY ", ")", ""},
+	{"within_group", E, E, "percentile_cont(0.5) WITHIN GROUP (ORDER BY ", ")", ""},
+	{"substring_from", E, E, "SUBSTRING(", " FROM 1)", ""},
+	{"position_in", E, E, "POSITION('a' IN ", ")", ""},
+	{"array_slice", E, E, "a[1:", "]", ""},
+	{"tuple_first", E, E, "(", ", 1)", ""},
+	{"in_list_lhs", E, E, "(", ") IN (1, 2)", ""},
+	{"like_escape_free_rhs", E, E, "x NOT LIKE (", ")", ""},
+	{"is_distinct_paren", E, E, "(", ") IS NOT NULL", ""},
+	{"json_arrow_rhs", E, E, "a -> (", ")", ""},
+	{"concat_right_paren", E, E, "'x' || (", ")", ""},
+	{"interval_paren_free_cmp", E, E, "1 < (", ")", ""},
 	{"scalar_subquery", E, Q, "(", ")", ""},
 	{"exists", E, Q, "EXISTS (", ")", ""},
 	{"not_exists", E, Q, "NOT EXISTS (", ")", ""},
@@ -84,6 +98,9 @@ var prods = []prod{
 	{"order_by", Q, E, "SELECT 1 FROM t ORDER BY ", "", "place"},
 	{"join_on", Q, E, "SELECT 1 FROM t JOIN u ON ", "", "place"},
 	{"limit", Q, E, "SELECT 1 FROM t LIMIT ", "", "place"},
+	{"offset", Q, E, "SELECT 1 FROM t LIMIT 1 OFFSET ", "", "place"},
+	{"distinct_on", Q, E, "SELECT DISTINCT ON (", ") a FROM t", "place"},
+	{"values_row_in_insert_select", Q, E, "SELECT a FROM t WHERE b IN (1, ", ")", "place"},
 	{"derived_table", Q, Q, "SELECT * FROM (", ") d", ""},
 	{"derived_table_in_join", Q, Q, "SELECT * FROM t JOIN (", ") d ON 1 = 1", ""},
 	{"derived_table_after_comma", Q, Q, "SELECT * FROM t, (", ") d", ""},
@@ -120,6 +137,12 @@ var tops = []prod{
 	{"create_default", E, E, "CREATE TABLE n (a int DEFAULT (", "))", ""},
 	{"merge_on", E, E, "MERGE INTO t USING s ON ", " WHEN MATCHED THEN DELETE", ""},
 	{"returning", E, E, "DELETE FROM t RETURNING ", "", ""},
+	{"on_conflict_set", E, E, "INSERT INTO t VALUES (1) ON CONFLICT (a) DO UPDATE SET a = ", "", ""},
+	{"on_conflict_where", E, E, "INSERT INTO t VALUES (1) ON CONFLICT (a) DO UPDATE SET a = 1 WHERE ", "", ""},
+	{"merge_when_condition", E, E, "MERGE INTO t USING s ON 1 = 1 WHEN MATCHED AND ", " THEN DELETE", ""},
+	{"merge_set", E, E, "MERGE INTO t USING s ON 1 = 1 WHEN MATCHED THEN UPDATE SET a = ", "", ""},
+	{"index_where", E, E, "CREATE INDEX ix ON t (a) WHERE ", "", ""},
+	{"view_query", Q, Q, "CREATE MATERIALIZED VIEW mv AS ", "", ""},
 	{"second_statement", Q, Q, "SELECT 1; ", "", ""},
 	{"from_table", T, T, "SELECT * FROM ", "", ""},
 	{"join_table", T, T, "SELECT * FROM t JOIN ", " ON 1 = 1", ""},
@@ -159,7 +182,7 @@ func (c NestCase) names() string {
 // parentheses are real nesting that is not counted, which only makes the count conservative.
 var tightHole = map[string]bool{"unary_minus": true, "between_low": true, "between_high": true, "not": true} // NOT x AND (...) is (NOT x) AND (...)
 var operandFirst = map[string]bool{"in_list": true, "between_low": true, "between_high": true, "binary_right_paren": true, "and_right": true,
-	"like_pattern": true, "any_subquery": true, "all_subquery": true, "in_subquery": true, "not": true, "exists": true, "not_exists": true,
+	"like_pattern": true, "like_escape_free_rhs": true, "json_arrow_rhs": true, "concat_right_paren": true, "interval_paren_free_cmp": true, "any_subquery": true, "all_subquery": true, "in_subquery": true, "not": true, "exists": true, "not_exists": true,
 	"case_when_cond": false}
 
 // pureChain reports whether the pattern has no bracketing production: such a text is a
